@@ -11,7 +11,7 @@ PROP = "C01"
 
 def resolved_cfg(case):
     cfg = dict(case["cfg"])
-    if cfg.get("min_freq_mod") is None:
+    if cfg.get("min_freq_mod") is None:  # (an explicit 0 means: no minimum)
         cfg["min_freq_mod"] = cfg["min_freq"] / 2
     if case["carver"] == "continuous":
         cfg["sort_by"] = "kruskal"
